@@ -280,6 +280,15 @@ func (ex *Exec) eqValue(x, y Value) *Term {
 	case *Chan:
 		yv, ok := y.(*Chan)
 		return tc.Bool(ok && xv == yv)
+	case symFloat:
+		yv, ok := y.(symFloat)
+		if !ok {
+			if f, isF := y.(float64); isF && f == float64(int64(f)) {
+				return tc.Eq(xv.n, tc.BV(uint64(int64(f)), 64))
+			}
+			return tc.False
+		}
+		return tc.Eq(xv.n, yv.n)
 	case Slice:
 		yv, ok := y.(Slice)
 		// only comparison with nil is legal
@@ -511,6 +520,9 @@ func (ex *Exec) indexAddr(x Value, idx *Term, it types.Type) Value {
 	idx = ex.idx64(idx, it)
 	switch xv := x.(type) {
 	case Slice:
+		if xv.abs != nil && len(xv.a) == 0 {
+			ex.unsupported("inspecting the bytes of an abstract (JSON-model) document")
+		}
 		ex.boundsCheck(idx, xv.n, "slice")
 		i := ex.concretizeRange(idx, 0, len(xv.a)-1, "index")
 		return &xv.a[i]
